@@ -31,10 +31,10 @@ fn main() {
             }
         }
         let mut rng = args.rng().fork(case ^ 0xC11);
-        if rng.chance(2, 3) {
-            part_a(&mut sh, case, &mut rng);
-        } else {
-            part_b(&mut sh, case, &mut rng);
+        match rng.below(6) {
+            0..=2 => part_a(&mut sh, case, &mut rng),
+            3 => part_b(&mut sh, case, &mut rng),
+            _ => part_c(&mut sh, case, &mut rng),
         }
     }
     sh.finish();
@@ -242,6 +242,125 @@ fn part_b(sh: &mut Shard, case: u64, rng: &mut Rng) {
     }
 }
 
+/// Part C: the addressed device misses exactly ONE frame of a compound operation (a transient
+/// dropout; it services everything before and after). When the missed frame carried a datagram
+/// that hands data of that device back (a read), the operation must fail; it must never return
+/// anything but the true value. EEPROM devices are busy for 0..3 polls, and a different address /
+/// object is read first so that stale register or mailbox content differs from the truth.
+fn part_c(sh: &mut Shard, case: u64, rng: &mut Rng) {
+    let n = 1 + rng.usize_below(3);
+    let descs: Vec<DeviceDesc> = (0..n).map(|_| dev(rng, true)).collect();
+    let mut net = Net::chain(descs);
+    let busy = *rng.pick(&[0u32, 1, 2, 3]);
+    for d in net.devs.iter_mut() {
+        d.mailbox.od.insert((0x2000, 1), rng.bytes(4));
+        d.mailbox.od.insert((0x2002, 1), rng.bytes(4));
+        d.mailbox.od.insert((0x2001, 0), (0..20).collect());
+        d.desc.coe_pdo = false;
+        d.sii_script.busy_polls = busy;
+        // distinct bytes everywhere in the part of the EEPROM the operations read
+        let fill = rng.bytes(64);
+        d.eeprom[0x40..0x80].copy_from_slice(&fill);
+    }
+    let victim = rng.usize_below(n);
+    let op = rng.below(7);
+    let f = rng.below(16);
+    let seed = rng.u64();
+    let opname = ["register_read", "register_write", "status", "eeprom_read_raw", "eeprom_read", "sdo_read", "sdo_write"][op as usize];
+    let scenario = json!({"case": case, "part": "C", "op": opname, "devices": n, "victim": victim, "missed_step": f, "sii_busy_polls": busy});
+    let res = std::panic::catch_unwind(std::panic::AssertUnwindSafe(|| {
+        with_sim(net, seed, &MdCfg::default(), |md: &MainDevice, sim: &mut Sim| {
+            let g: SubDeviceGroup<4, 64> = match sim.run(md.init_single_group::<4, 64>(|| 0)) {
+                Ok(Ok(g)) => g,
+                other => return Err(format!("init: {:?}", other.map(|r| r.map(|_| ())))),
+            };
+            // truth and length from a fault-free run
+            let before = sim.net.frame_no;
+            let clean = run_op(sim, md, &g, victim, op);
+            let len = sim.net.frame_no - before;
+            // leave different stale content behind
+            let _ = run_op_other(sim, md, &g, victim, op);
+            let step = f % len.max(1);
+            let at = sim.net.frame_no + 1 + step;
+            sim.net.faults.miss = Some((victim, at));
+            sim.net.keep_log = true;
+            sim.net.log.clear();
+            let faulted = run_op(sim, md, &g, victim, op);
+            sim.net.keep_log = false;
+            sim.net.faults.miss = None;
+            // what did the missed frame carry for the victim?
+            let station = 0x1000 + victim as u16;
+            let missed: Vec<(u8, u16)> = sim.net.log.iter().filter(|l| l.frame_no == at).flat_map(|l| l.tx.dgrams.iter().filter(|d| matches!(d.cmd, wire::CMD_FPRD | wire::CMD_FPWR | wire::CMD_FPRW | wire::CMD_FRMW) && d.adp() == station).map(|d| (d.cmd, d.ado())).collect::<Vec<_>>()).collect();
+            Ok((clean, len, step, faulted, missed))
+        })
+    }));
+    sh.count(&format!("C.op.{opname}"));
+    match res {
+        Err(p) => {
+            let msg = p.downcast_ref::<String>().cloned().or_else(|| p.downcast_ref::<&str>().map(|s| s.to_string())).unwrap_or_default();
+            sh.violation(&format!("C11:panic:{opname}"), msg, scenario);
+        }
+        Ok(Err(e)) => sh.violation("C11:init-failed", e, scenario),
+        Ok(Ok((clean, len, step, faulted, missed))) => {
+            sh.case(Some(fnv_mix(fnv_mix(fnv_mix(fnv_mix(case, op), step), victim as u64), 0xC)));
+            let Ok(truth) = clean else {
+                sh.violation(&format!("C11:clean-run-failed:{opname}"), format!("{clean:?}"), scenario.clone());
+                return;
+            };
+            let read_missed = missed.iter().any(|(c, _)| *c != wire::CMD_FPWR);
+            let checked_write_missed = op == 1 && missed.iter().any(|(c, _)| *c == wire::CMD_FPWR);
+            if missed.is_empty() {
+                sh.count("C.missed_frame_not_for_victim");
+            } else if read_missed {
+                sh.count("C.missed_read");
+            } else {
+                sh.count("C.missed_write");
+            }
+            match faulted {
+                Err(e) => {
+                    sh.count("C.rejected");
+                    sh.count(&format!("C.error.{}", e.split(|c: char| c == ' ' || c == '{' || c == '(').next().unwrap_or("")));
+                }
+                Ok(what) if what != truth && !missed.is_empty() && (read_missed || checked_write_missed) => {
+                    sh.violation(&format!("C11:wrong-data-after-missed-frame:{opname}"), format!("device {victim} missed step {step} of {len} ({missed:x?}, SII busy polls {busy}); the call returned {what}, the truth is {truth}"), scenario)
+                }
+                // register / EEPROM reads hand back exactly what the missed datagram should have carried:
+                // every one of their reads is checked, so success is not acceptable
+                Ok(what) if (read_missed || checked_write_missed) && op <= 4 => {
+                    sh.violation(&format!("C11:success-despite-missed-datagram:{opname}"), format!("device {victim} missed step {step} of {len} ({missed:x?}, SII busy polls {busy}); the call returned {what}"), scenario)
+                }
+                Ok(what) => {
+                    if what != truth {
+                        // only reachable when the missed frame carried nothing but exempt (fire-and-forget) writes
+                        sh.count("C.unjudged_wrong_after_missed_exempt_write");
+                        sh.observe("C.unjudged", format!("{opname}: missed {missed:x?}: {what} vs {truth}"));
+                    } else {
+                        sh.count("C.correct_value_despite_miss");
+                    }
+                }
+            }
+        }
+    }
+}
+
+/// The same kind of operation on a different address / object (to leave other stale content).
+fn run_op_other<'a>(sim: &mut Sim<'a>, md: &'a MainDevice<'a>, g: &SubDeviceGroup<4, 64>, victim: usize, op: u64) -> Result<String, String> {
+    let sd = g.subdevice(md, victim).map_err(|e| format!("{e:?}"))?;
+    let flat = |r: Result<Result<String, Error>, Stop>| match r {
+        Ok(Ok(s)) => Ok(s),
+        Ok(Err(e)) => Err(format!("{e:?}")),
+        Err(s) => Err(format!("{s:?}")),
+    };
+    match op {
+        0 | 1 | 2 => flat(sim.run(sd.register_read::<u16>(0x0012u16)).map(|r| r.map(|v| format!("{v:#x}")))),
+        3 | 4 => {
+            let mut buf = [0u8; 8];
+            flat(sim.run(sd.eeprom_read_raw(md, 0x30, &mut buf)).map(|r| r.map(|v| format!("{v} bytes"))))
+        }
+        _ => flat(sim.run(sd.sdo_read::<u32>(0x2002, 1)).map(|r| r.map(|v| format!("{v:#x}")))),
+    }
+}
+
 fn run_op<'a>(sim: &mut Sim<'a>, md: &'a MainDevice<'a>, g: &SubDeviceGroup<4, 64>, victim: usize, op: u64) -> Result<String, String> {
     let sd = g.subdevice(md, victim).map_err(|e| format!("{e:?}"))?;
     let flat = |r: Result<Result<String, Error>, Stop>| match r {
@@ -255,9 +374,10 @@ fn run_op<'a>(sim: &mut Sim<'a>, md: &'a MainDevice<'a>, g: &SubDeviceGroup<4, 6
         2 => flat(sim.run(sd.status()).map(|r| r.map(|v| format!("{v:?}")))),
         3 => {
             let mut buf = [0u8; 24];
-            flat(sim.run(sd.eeprom_read_raw(md, 8, &mut buf)).map(|r| r.map(|v| format!("{v} bytes"))))
+            let r = sim.run(sd.eeprom_read_raw(md, 0x22, &mut buf));
+            flat(r.map(|r| r.map(|v| format!("{v} bytes {}", vh::shard::hex(&buf)))))
         }
-        4 => flat(sim.run(sd.eeprom_read::<u32>(md, 8)).map(|r| r.map(|v| format!("{v:#x}")))),
+        4 => flat(sim.run(sd.eeprom_read::<u32>(md, 0x24)).map(|r| r.map(|v| format!("{v:#x}")))),
         5 => flat(sim.run(sd.sdo_read::<u32>(0x2000, 1)).map(|r| r.map(|v| format!("{v:#x}")))),
         6 => flat(sim.run(sd.sdo_write(0x2000, 1, 0x55aa_1234u32)).map(|r| r.map(|_| "written".to_string()))),
         _ => unreachable!(),
